@@ -11,6 +11,11 @@ EXTENDS Integers, Sequences, FiniteSets
 InRange(i, d, n) == i >= d /\ i < d + n
 Disjoint(d, s, n) == d + n <= s \/ s + n <= d \/ n = 0
 
+\* "they never write a byte outside the destination range": every STORE <<offset, length>> a call performs lies
+\* inside [d, d+n) - also a store that writes back the value it found (a read-modify-write of a word straddling
+\* the end of the range loses a concurrent writer's store to the neighbouring bytes)
+StoresInside(d, n, stores) == \A k \in 1..Len(stores) : d <= stores[k][1] /\ stores[k][1] + stores[k][2] <= d + n
+
 \* memmove: "copying takes place as if the n bytes were first copied into a temporary array" -
 \* every destination cell receives the ORIGINAL value of its source cell, for any overlap.
 Memmove(m, d, s, n) ==
